@@ -280,7 +280,7 @@ func c08LongRun(c *Case, lp c08Long, n int) {
 	c.NonTrivial(fmt.Sprintf("long:%s:%d", lp.name, n))
 	c.Count("long_history_runs")
 	c.CountN("long_history_elements", n)
-	r := m2(c, &M2Case{Prog: p, Text: lp.prog, Files: []InFile{{Name: "in.json", Data: sb.Bytes()}}, Budget: 60 * n + 100000, CheckM4: true,
+	r := m2(c, &M2Case{Prog: p, Text: lp.prog, Files: []InFile{{Name: "in.json", Data: sb.Bytes()}}, Budget: 60*n + 100000, CheckM4: true,
 		Desc: fmt.Sprintf("long history %s over %d elements", lp.name, n), Replay: map[string]any{"elements": n}})
 	if r.Lib != nil {
 		c.Max("long_history_pushes", r.Lib.Pushes)
@@ -450,7 +450,7 @@ func c08Run(c *Case) {
 func init() {
 	register(&Prop{
 		ID: "C08", Level: "exploration",
-		Rule: "sampled: programs with 1-4 generated functions (arity 0-4, called with too few / exact / too many arguments in every expression position, parameter reassignment, callee locals, global updates, container parameters with element stores, returns from loops and match blocks, nested calls) plus a recursion library (fact, fib, mutual even/odd, ackermann, sumto up to depth 900); after every call the caller prints its own state and probes every callee name with `is unknown`; trace vs reference model, plus the frame automaton M4 (depth at each rule start equals the baseline). Enumerated: 8 long-history programs over 10000 elements (thorough: up to 50000) whose result is compared with the model, and 5 runaway-recursion shapes whose refusal depth must be identical after 0/1/10/5000 completed calls. Non-trivial = >= 3 calls and an arity mismatch or recursion; long runs and probes count as non-trivial.",
+		Rule:          "sampled: programs with 1-4 generated functions (arity 0-4, called with too few / exact / too many arguments in every expression position, parameter reassignment, callee locals, global updates, container parameters with element stores, returns from loops and match blocks, nested calls) plus a recursion library (fact, fib, mutual even/odd, ackermann, sumto up to depth 900); after every call the caller prints its own state and probes every callee name with `is unknown`; trace vs reference model, plus the frame automaton M4 (depth at each rule start equals the baseline). Enumerated: 8 long-history programs over 10000 elements (thorough: up to 50000) whose result is compared with the model, and 5 runaway-recursion shapes whose refusal depth must be identical after 0/1/10/5000 completed calls. Non-trivial = >= 3 calls and an arity mismatch or recursion; long runs and probes count as non-trivial.",
 		NumCases:      c08Cases,
 		Run:           c08Run,
 		MinConclusive: func(tier string) int { return 3000 },
